@@ -233,6 +233,13 @@ func (c11) Check(out *sim.Outcome, ri *RunInfo) []Violation {
 			vs = append(vs, Violation{Rule: "C11.crosstalk", Detail: fmt.Sprintf("%s (%s) differs from its solo reference: %s", v.Ep.Actor, variantOf(v), d), Facts: facts("variant", variantOf(v))})
 		}
 	}
+	// the local port a UDP or TCP SYN run probes from is its own while it is alive
+	for _, v := range vws {
+		if v.Ep.PortNotReserved {
+			vs = append(vs, Violation{Rule: "C11.port-not-reserved", Detail: fmt.Sprintf("%s (%s): when its first probe went out, another socket could bind the local port the run sends from: nothing keeps the kernel from handing that port to a concurrent run to the same target, whose replies would then be this run's", v.Ep.Actor, variantOf(v)), Facts: facts("variant", variantOf(v))})
+			break
+		}
+	}
 	// identifier ranges of simultaneously live runs
 	type idset struct {
 		v    *EpView
